@@ -1,36 +1,63 @@
 /-
   C09 — plain argparse arguments behave as in argparse; the namespace stays clean.
 
-  The argparse engine `E` and the algebra of Python values `A` are PARAMETERS: every theorem below holds for
-  every engine and every value algebra.  What the engine does on `userActs ++ spActs` versus on the user's
-  actions plus stand-ins is argparse's own business and is settled differentially (harness/props/c09.py).
+  The argparse engine `E`, the exit behaviour `pre` of the subgroup pre-parser and the algebra of Python values `A`
+  are PARAMETERS: every theorem below holds for every engine, every `pre` and every value algebra.  What the engine
+  does on `userActs ++ spActs` versus on the user's actions plus stand-ins is argparse's own business and is settled
+  differentially (harness/props/c09.py).
 
-  Statements (all about `SpVerif.Post.spParse` = `parse_known_args` and `postprocess` = `_postprocessing`):
-    * decision / leftovers : `c09_exit_iff`, `c09_ok_inv`, `c09_parse_args_ok`
-    * frame                : `c09_postprocess_frame`, `c09_frame`
+  Statements (about `SpVerif.Post.spParse` = `parse_known_args`, `spParseArgs` = `parse_args`, `postprocess` =
+  `_postprocessing`):
+    * decision             : full statement `DecisionFull`, refuted by `c09_decision_witness` (open finding
+                             C09-help-after-bad-subgroup: the subgroup pre-parser exits first); `c09_exit_iff_partial`
+                             under the named exclusion `pre argv = none`; `c09_pre_exit`; `c09_parse_args_exit_iff`
+    * ACCEPT               : `c09_accept` — engine accepts + `WellFormed` + total constructors ⇒ a namespace is
+                             returned with the engine's leftovers (no AttributeError / AssertionError / KeyError /
+                             RuntimeError, nothing outside the modelled fragment); `c09_postprocess_total`
+    * leftovers            : `c09_ok_inv`, `c09_parse_args_ok`
+    * frame                : `c09_postprocess_frame`, `c09_frame`, `c09_frame_total`
     * key set              : `c09_keys_sub`, `c09_user_keys_kept`, `c09_roots_present`, `c09_keys_exact`
     * no dotted key        : `c09_no_dotted`
     * added errors         : `c09_no_runtimeError`, `c09_collision_witness`, `c09_defaults_overwritten_witness`
     * the `init=False` branch of the code (parsing.py:964) would leak a dotted key: `c09_init_false_leaks_witness`
       (no real wrapper has such a field: dataclass_wrapper.py:77), hence the named hypothesis `AllInit`.
+    * other open findings  : `c09_second_postprocess_witness` (parse_intermixed_args runs the post-processing twice),
+                             `SetDefaultsFull` / `c09_set_defaults_witness` / `c09_set_defaults_partial`
+                             (`set_defaults(config_path=…)` is swallowed)
+    * `default=argparse.SUPPRESS` registrations are the named exclusion `NoSuppress` of the "one attribute per
+      destination" clause: `c09_suppress_witness`.
 -/
-import SpVerif.Lemmas.Post
+import SpVerif.Lemmas.PostTotal
 namespace SpVerif.C09
 open SpVerif SpVerif.Post
 
 variable {V : Type}
 
-/-- every `FieldWrapper` belongs to an `init=True` field (dataclass_wrapper.py:77 creates no other) -/
-def AllInit (ps : PState V) : Prop := ∀ f ∈ allFields ps.wrappers, f.init = true
+/-! ### decision -/
 
-/-- no wrapper was registered with `default=argparse.SUPPRESS` -/
-def NoSuppress (ps : PState V) : Prop := ∀ w ∈ ps.wrappers, w.suppress = false
+/-- the full accept/reject statement: simple-parsing exits with a status exactly when argparse does -/
+def DecisionFull : Prop :=
+  ∀ (pre : Pre) (E : Engine PVal) (ps : PState PVal) (ua sa : Table) (argv : Argv) (c : Nat),
+    spParse palg pre E ps ua sa argv = .exit c ↔ E (ua ++ sa) argv = .exit c
 
-/-! ### decision and leftovers are the engine's -/
+/-- open finding C09-help-after-bad-subgroup (`-h --model zz`): the subgroup pre-parser of `_resolve_subgroups` exits
+    with status 2 where argparse (the engine) prints the help and exits 0 -/
+theorem c09_decision_witness : ¬ DecisionFull := by
+  intro h
+  have := (h (fun _ => some 2) (fun _ _ => .exit 0) ⟨[], [], [], false⟩ [] [] [] 0).mpr rfl
+  simp [spParse] at this
 
-theorem c09_exit_iff (A : Alg V) (E : Engine V) (ps : PState V) (ua sa : Table) (argv : Argv) (c : Nat) :
-    spParse A E ps ua sa argv = .exit c ↔ E (ua ++ sa) argv = .exit c := by
-  simp only [spParse]
+/-- the pre-parser's exit is simple-parsing's exit -/
+theorem c09_pre_exit (A : Alg V) (pre : Pre) (E : Engine V) (ps : PState V) (ua sa : Table) (argv : Argv) (c : Nat)
+    (h : pre argv = some c) : spParse A pre E ps ua sa argv = .exit c := by
+  simp [spParse, h]
+
+/-- `_partial`: when the subgroup pre-parser does not exit (named exclusion `pre argv = none`; always the case
+    without subgroup fields), simple-parsing exits with a status exactly when argparse does, with that status -/
+theorem c09_exit_iff_partial (A : Alg V) (pre : Pre) (E : Engine V) (ps : PState V) (ua sa : Table) (argv : Argv)
+    (c : Nat) (hpre : pre argv = none) :
+    spParse A pre E ps ua sa argv = .exit c ↔ E (ua ++ sa) argv = .exit c := by
+  simp only [spParse, hpre]
   constructor
   · intro h
     split at h
@@ -39,37 +66,56 @@ theorem c09_exit_iff (A : Alg V) (E : Engine V) (ps : PState V) (ua sa : Table) 
     · split at h <;> exact absurd h (by simp)
   · intro h; rw [h]
 
-theorem c09_ok_inv (A : Alg V) (E : Engine V) (ps : PState V) (ua sa : Table) (argv rest : Argv) (n : Nsp V)
-    (h : spParse A E ps ua sa argv = .ok n rest) :
-    ∃ raw, E (ua ++ sa) argv = .ok raw rest ∧ postprocess A ps raw = .ok n := by
+example : ∃ (pre : Pre) (argv : Argv), pre argv = none := ⟨fun _ => none, [['-', 'h']], rfl⟩
+
+theorem c09_ok_inv (A : Alg V) (pre : Pre) (E : Engine V) (ps : PState V) (ua sa : Table) (argv rest : Argv)
+    (n : Nsp V) (h : spParse A pre E ps ua sa argv = .ok n rest) :
+    pre argv = none ∧ ∃ raw, E (ua ++ sa) argv = .ok raw rest ∧ postprocess A ps raw = .ok n := by
   simp only [spParse] at h
   split at h
   · exact absurd h (by simp)
-  · exact absurd h (by simp)
-  · rename_i raw rest' he
+  · rename_i hpre
+    refine ⟨hpre, ?_⟩
     split at h
-    · rename_i n' hp
-      simp only [POut.ok.injEq] at h
-      obtain ⟨rfl, rfl⟩ := h
-      exact ⟨raw, he, hp⟩
     · exact absurd h (by simp)
     · exact absurd h (by simp)
+    · rename_i raw rest' he
+      split at h
+      · rename_i n' hp
+        simp only [POut.ok.injEq] at h
+        obtain ⟨rfl, rfl⟩ := h
+        exact ⟨raw, he, hp⟩
+      · exact absurd h (by simp)
+      · exact absurd h (by simp)
 
-/-- whenever the engine accepts, simple-parsing returns the engine's leftovers or raises — it never turns an
-    accepted command line into an argparse-style exit -/
-theorem c09_accept_no_exit (A : Alg V) (E : Engine V) (ps : PState V) (ua sa : Table) (argv rest : Argv)
-    (raw : Dict V) (hE : E (ua ++ sa) argv = .ok raw rest) :
-    (∃ n, spParse A E ps ua sa argv = .ok n rest) ∨ (∃ e, spParse A E ps ua sa argv = .raise e) ∨
-    (∃ y, spParse A E ps ua sa argv = .unmodelled y) := by
-  simp only [spParse, hE]
+/-- `_postprocessing` returns a namespace on every well-formed input -/
+theorem c09_postprocess_total (A : Alg V) (hA : ConstructTotal A) (ps : PState V) (raw : Dict V)
+    (h : WellFormed ps raw) : ∃ n, postprocess A ps raw = .ok n :=
+  postprocess_total A hA ps raw h
+
+/-- ACCEPT: when the pre-parser does not exit and argparse accepts with `(raw, rest)` on a well-formed input,
+    simple-parsing returns a namespace with the same leftovers -/
+theorem c09_accept (A : Alg V) (hA : ConstructTotal A) (pre : Pre) (E : Engine V) (ps : PState V) (ua sa : Table)
+    (argv rest : Argv) (raw : Dict V) (hpre : pre argv = none) (hE : E (ua ++ sa) argv = .ok raw rest)
+    (hwf : WellFormed ps raw) : ∃ n, spParse A pre E ps ua sa argv = .ok n rest := by
+  obtain ⟨n, hn⟩ := postprocess_total A hA ps raw hwf
+  exact ⟨n, by simp [spParse, hpre, hE, hn]⟩
+
+/-- the general form: an accepted command line is never turned into an argparse-style exit -/
+theorem c09_accept_no_exit (A : Alg V) (pre : Pre) (E : Engine V) (ps : PState V) (ua sa : Table) (argv rest : Argv)
+    (raw : Dict V) (hpre : pre argv = none) (hE : E (ua ++ sa) argv = .ok raw rest) :
+    (∃ n, spParse A pre E ps ua sa argv = .ok n rest) ∨ (∃ e, spParse A pre E ps ua sa argv = .raise e) ∨
+    (∃ y, spParse A pre E ps ua sa argv = .unmodelled y) := by
+  simp only [spParse, hpre, hE]
   split
   · exact Or.inl ⟨_, rfl⟩
   · exact Or.inr (Or.inl ⟨_, rfl⟩)
   · exact Or.inr (Or.inr ⟨_, rfl⟩)
 
 /-- `parse_args` accepts exactly when `parse_known_args` accepts with no leftovers -/
-theorem c09_parse_args_ok (A : Alg V) (E : Engine V) (ps : PState V) (ua sa : Table) (argv rest : Argv) (n : Nsp V) :
-    spParseArgs A E ps ua sa argv = .ok n rest ↔ (rest = [] ∧ spParse A E ps ua sa argv = .ok n []) := by
+theorem c09_parse_args_ok (A : Alg V) (pre : Pre) (E : Engine V) (ps : PState V) (ua sa : Table) (argv rest : Argv)
+    (n : Nsp V) :
+    spParseArgs A pre E ps ua sa argv = .ok n rest ↔ (rest = [] ∧ spParse A pre E ps ua sa argv = .ok n []) := by
   simp only [spParseArgs]
   constructor
   · intro h
@@ -87,6 +133,30 @@ theorem c09_parse_args_ok (A : Alg V) (E : Engine V) (ps : PState V) (ua sa : Ta
       exact absurd h (by intro e; exact hne n rest e)
   · rintro ⟨rfl, h⟩
     rw [h]; simp
+
+/-- the decision of the `parse_args` API: it exits exactly when `parse_known_args` exits (same status) or returns
+    leftovers (status 2) -/
+theorem c09_parse_args_exit_iff (A : Alg V) (pre : Pre) (E : Engine V) (ps : PState V) (ua sa : Table) (argv : Argv)
+    (c : Nat) :
+    spParseArgs A pre E ps ua sa argv = .exit c ↔
+      (spParse A pre E ps ua sa argv = .exit c ∨
+       (c = 2 ∧ ∃ n r, spParse A pre E ps ua sa argv = .ok n r ∧ r ≠ [])) := by
+  simp only [spParseArgs]
+  constructor
+  · intro h
+    split at h
+    · rename_i n r hp
+      split at h
+      · exact absurd h (by simp)
+      · rename_i hr
+        simp only [POut.exit.injEq] at h
+        exact Or.inr ⟨h.symm, n, r, hp, by simpa using hr⟩
+    · exact Or.inl h
+  · rintro (h | ⟨rfl, n, r, h, hr⟩)
+    · rw [h]
+    · rw [h]
+      have : r.isEmpty = false := by cases r with | nil => exact absurd rfl hr | cons _ _ => rfl
+      simp [this]
 
 /-! ### frame: entries simple-parsing does not own are returned untouched -/
 
@@ -216,10 +286,12 @@ theorem c09_subgroups_iff (A : Alg V) (ps : PState V) (raw : Dict V) (n : Nsp V)
     split at h1
     · exact absurd h1 (by simp)
     · split at h1
-      · simp only [Out.ok.injEq, Prod.mk.injEq] at h1
-        rw [← h1.2, he]; simp
       · exact absurd h1 (by simp)
-      · exact absurd h1 (by simp)
+      · split at h1
+        · simp only [Out.ok.injEq, Prod.mk.injEq] at h1
+          rw [← h1.2, he]; simp
+        · exact absurd h1 (by simp)
+        · exact absurd h1 (by simp)
 
 /-! ### no dotted intermediate destination leaks -/
 
@@ -258,21 +330,23 @@ theorem c09_no_runtimeError (A : Alg V) (ps : PState V) (raw : Dict V)
       · exact absurd h1 (by simp)
       · split at h1
         · exact absurd h1 (by simp)
-        · rename_i e hm
-          simp only [Out.raise.injEq] at h1; subst h1
-          -- `moveSubgroups` only raises AttributeError
-          have : ∀ (ds : List Str) (ns sub : Dict V), moveSubgroups ds ns sub ≠ .raise .runtimeError := by
-            intro ds
-            induction ds with
-            | nil => intro ns sub; simp [moveSubgroups]
-            | cons d ds ih =>
-              intro ns sub
-              simp only [moveSubgroups]
-              split
-              · simp
-              · exact ih _ _
-          exact this _ _ _ hm
-        · exact absurd h1 (by simp)
+        · split at h1
+          · exact absurd h1 (by simp)
+          · rename_i e hm
+            simp only [Out.raise.injEq] at h1; subst h1
+            -- `moveSubgroups` only raises AttributeError
+            have : ∀ (ds : List Str) (ns sub : Dict V), moveSubgroups ds ns sub ≠ .raise .runtimeError := by
+              intro ds
+              induction ds with
+              | nil => intro ns sub; simp [moveSubgroups]
+              | cons d ds ih =>
+                intro ns sub
+                simp only [moveSubgroups]
+                split
+                · simp
+                · exact ih _ _
+            exact this _ _ _ hm
+          · exact absurd h1 (by simp)
   · exact absurd h (by simp)
   · rename_i ns1 sub h1
     split at h
@@ -354,25 +428,29 @@ theorem c09_no_runtimeError (A : Alg V) (ps : PState V) (raw : Dict V)
 /-! ### the central statement -/
 
 /-- For EVERY engine that only writes the destinations of its table (and the parser-level defaults), with the
-    user's destinations disjoint from simple-parsing's: if argparse accepts with `(raw, rest)`, then whenever
-    simple-parsing returns a namespace it returns it with the same leftovers, every user entry is exactly
-    argparse's, every key is a user destination, a parser-level default, or an `add_arguments` destination —
-    in particular no dotted key —, and the only error class simple-parsing could add for a collision cannot
-    occur. -/
-theorem c09_frame (A : Alg V) (E : Engine V) (ps : PState V) (ua sa : Table) (argv rest : Argv) (raw : Dict V)
-    (hE : E (ua ++ sa) argv = .ok raw rest)
-    (hW : ∀ k ∈ dkeys raw, k ∈ (ua ++ sa).map (·.dest) ∨ k ∈ ps.defaultsKeys)
-    (hsp : ∀ a ∈ sa, a.dest ∈ fieldDests ps.wrappers)
-    (hU : ∀ a ∈ ua, a.dest ∉ fieldDests ps.wrappers ∧ a.dest ∉ rootDests ps.wrappers)
-    (hD : ∀ k ∈ ps.defaultsKeys, k ∉ fieldDests ps.wrappers ∧ k ∉ rootDests ps.wrappers)
-    (hRF : ∀ d ∈ rootDests ps.wrappers, d ∉ fieldDests ps.wrappers)
-    (hi : AllInit ps) (hnd : (rootDests ps.wrappers).Nodup) :
-    spParse A E ps ua sa argv ≠ .raise .runtimeError ∧
-    ∀ n rest', spParse A E ps ua sa argv = .ok n rest' →
+    user's destinations disjoint from simple-parsing's (`FrameHyps`, decidable — the driver evaluates it on every
+    accepted real run): if argparse accepts with `(raw, rest)`, the collision error cannot occur, and whenever
+    simple-parsing returns a namespace
+      (1) it returns the same leftovers,
+      (2) every user entry and every parser-level default is exactly argparse's (present or absent),
+      (3) every attribute is a user destination, a parser-level default or an `add_arguments` destination,
+      (4) every attribute argparse produced outside the dataclass options is still there,
+      (5) without `default=SUPPRESS` registrations every `add_arguments` destination is an attribute,
+      (6) no attribute name — `subgroups` included — contains a dot, provided the user's own destinations, the
+          parser-level defaults and the `add_arguments` destinations contain none. -/
+theorem c09_frame (A : Alg V) (pre : Pre) (E : Engine V) (ps : PState V) (ua sa : Table) (argv rest : Argv)
+    (raw : Dict V) (hE : E (ua ++ sa) argv = .ok raw rest) (hyp : FrameHyps ps ua sa raw) :
+    spParse A pre E ps ua sa argv ≠ .raise .runtimeError ∧
+    ∀ n rest', spParse A pre E ps ua sa argv = .ok n rest' →
       rest' = rest ∧
       (∀ a ∈ ua, dget n.attrs a.dest = dget raw a.dest) ∧
       (∀ k ∈ ps.defaultsKeys, dget n.attrs k = dget raw k) ∧
-      (∀ k ∈ dkeys n.attrs, k ∈ ua.map (·.dest) ∨ k ∈ ps.defaultsKeys ∨ k ∈ rootDests ps.wrappers) := by
+      (∀ k ∈ dkeys n.attrs, k ∈ ua.map (·.dest) ∨ k ∈ ps.defaultsKeys ∨ k ∈ rootDests ps.wrappers) ∧
+      (∀ k ∈ dkeys raw, k ∉ fieldDests ps.wrappers → k ∈ dkeys n.attrs) ∧
+      (NoSuppress ps → ∀ d ∈ rootDests ps.wrappers, d ∈ dkeys n.attrs) ∧
+      ((∀ a ∈ ua, dotted a.dest = false) → (∀ k ∈ ps.defaultsKeys, dotted k = false) →
+        (∀ d ∈ rootDests ps.wrappers, dotted d = false) → ∀ k ∈ n.keys, dotted k = false) := by
+  obtain ⟨hW, hsp, hU, hD, hRF, hi, hnd⟩ := hyp
   have hrootraw : ∀ d ∈ rootDests ps.wrappers, d ∉ dkeys raw := by
     intro d hd hm
     rcases hW d hm with e | e
@@ -383,29 +461,59 @@ theorem c09_frame (A : Alg V) (E : Engine V) (ps : PState V) (ua sa : Table) (ar
     · exact (hD d e).2 hd
   constructor
   · intro h
-    simp only [spParse, hE] at h
+    simp only [spParse] at h
     split at h
     · exact absurd h (by simp)
-    · rename_i e hp
-      simp only [POut.raise.injEq] at h; subst h
-      exact c09_no_runtimeError A ps raw hrootraw hnd hp
-    · exact absurd h (by simp)
+    · simp only [hE] at h
+      split at h
+      · exact absurd h (by simp)
+      · rename_i e hp
+        simp only [POut.raise.injEq] at h; subst h
+        exact c09_no_runtimeError A ps raw hrootraw hnd hp
+      · exact absurd h (by simp)
   · intro n rest' h
-    obtain ⟨raw', he, hp⟩ := c09_ok_inv A E ps ua sa argv rest' n h
+    obtain ⟨_, raw', he, hp⟩ := c09_ok_inv A pre E ps ua sa argv rest' n h
     rw [hE] at he
     simp only [EOut.ok.injEq] at he
     obtain ⟨rfl, rfl⟩ := he
+    have hkeys : ∀ k ∈ dkeys n.attrs, k ∈ ua.map (·.dest) ∨ k ∈ ps.defaultsKeys ∨ k ∈ rootDests ps.wrappers := by
+      intro k hk
+      rcases c09_keys_sub A ps _ n hp hi k hk with ⟨a, b⟩ | a
+      · rcases hW k a with e | e
+        · simp only [List.map_append, List.mem_append] at e
+          rcases e with e | e
+          · exact Or.inl e
+          · obtain ⟨x, hx, rfl⟩ := List.mem_map.mp e
+            exact absurd (hsp x hx) b
+        · exact Or.inr (Or.inl e)
+      · exact Or.inr (Or.inr a)
     refine ⟨rfl, fun a ha => c09_postprocess_frame A ps _ n hp _ (hU a ha).1 (hU a ha).2,
-      fun k hk => c09_postprocess_frame A ps _ n hp _ (hD k hk).1 (hD k hk).2, fun k hk => ?_⟩
-    rcases c09_keys_sub A ps _ n hp hi k hk with ⟨a, b⟩ | a
-    · rcases hW k a with e | e
-      · simp only [List.map_append, List.mem_append] at e
-        rcases e with e | e
-        · exact Or.inl e
-        · obtain ⟨x, hx, rfl⟩ := List.mem_map.mp e
-          exact absurd (hsp x hx) b
-      · exact Or.inr (Or.inl e)
-    · exact Or.inr (Or.inr a)
+      fun k hk => c09_postprocess_frame A ps _ n hp _ (hD k hk).1 (hD k hk).2, hkeys,
+      fun k hk hf => c09_user_keys_kept A ps _ n hp k hk hf,
+      fun hs d hd => c09_roots_present A ps _ n hp hs d hd, fun du dd dr k hk => ?_⟩
+    simp only [Nsp.keys, List.mem_append] at hk
+    rcases hk with hk | hk
+    · rcases hkeys k hk with e | e | e
+      · obtain ⟨a, ha, rfl⟩ := List.mem_map.mp e
+        exact du a ha
+      · exact dd k e
+      · exact dr k e
+    · split at hk
+      · simp only [List.mem_singleton] at hk
+        subst hk; decide
+      · exact absurd hk (by simp)
+
+/-- frame + ACCEPT: on a well-formed input the namespace of `c09_frame` exists -/
+theorem c09_frame_total (A : Alg V) (hA : ConstructTotal A) (pre : Pre) (E : Engine V) (ps : PState V)
+    (ua sa : Table) (argv rest : Argv) (raw : Dict V) (hpre : pre argv = none)
+    (hE : E (ua ++ sa) argv = .ok raw rest) (hyp : FrameHyps ps ua sa raw) (hwf : WellFormed ps raw) :
+    ∃ n, spParse A pre E ps ua sa argv = .ok n rest ∧
+      (∀ a ∈ ua, dget n.attrs a.dest = dget raw a.dest) ∧
+      (∀ k ∈ dkeys n.attrs, k ∈ ua.map (·.dest) ∨ k ∈ ps.defaultsKeys ∨ k ∈ rootDests ps.wrappers) ∧
+      (NoSuppress ps → ∀ d ∈ rootDests ps.wrappers, d ∈ dkeys n.attrs) := by
+  obtain ⟨n, hn⟩ := c09_accept A hA pre E ps ua sa argv rest raw hpre hE hwf
+  obtain ⟨_, h2, _, h4, _, h6, _⟩ := (c09_frame A pre E ps ua sa argv rest raw hE hyp).2 n rest hn
+  exact ⟨n, hn, h2, h4, h6⟩
 
 
 /-! ### concrete inputs: the hypotheses are satisfiable, the exclusions are necessary -/
@@ -439,26 +547,53 @@ private def nsEx : Nsp PVal :=
 /-- the model on a nested forest: `foo` kept, both dotted keys consumed, the instance built bottom-up -/
 example : postprocess palg (psEx true []) rawEx = .ok nsEx := by rfl
 
-/-- the hypotheses of `c09_frame` hold for this input (engine = the constant engine returning `rawEx`) -/
-example :
-    let E : Engine PVal := fun _ _ => .ok rawEx [['z']]
-    let ua : Table := [{ dest := sFoo }]
-    let sa : Table := [{ dest := sCfgX }, { dest := sCfgInY }]
-    E (ua ++ sa) [] = .ok rawEx [['z']] ∧
-    (∀ k ∈ dkeys rawEx, k ∈ (ua ++ sa).map (·.dest) ∨ k ∈ (psEx true []).defaultsKeys) ∧
-    (∀ a ∈ sa, a.dest ∈ fieldDests (psEx true []).wrappers) ∧
-    (∀ a ∈ ua, a.dest ∉ fieldDests (psEx true []).wrappers ∧ a.dest ∉ rootDests (psEx true []).wrappers) ∧
-    (∀ d ∈ rootDests (psEx true []).wrappers, d ∉ fieldDests (psEx true []).wrappers) ∧
-    AllInit (psEx true []) ∧ NoSuppress (psEx true []) ∧ (rootDests (psEx true []).wrappers).Nodup ∧
-    spParse palg E (psEx true []) ua sa [] = .ok nsEx [['z']] := by
-  refine ⟨rfl, by decide, by decide, by decide, by decide, ?_, ?_, by decide, by rfl⟩
-  · intro f hf
-    simp only [allFields, psEx, wTop, wIn, List.flatMap_cons, List.flatMap_nil, List.append_nil, List.cons_append,
-      List.nil_append, List.mem_cons, List.not_mem_nil, or_false] at hf
-    rcases hf with rfl | rfl <;> rfl
-  · intro w hw
-    simp only [psEx, List.mem_cons, List.not_mem_nil, or_false] at hw
-    rcases hw with rfl | rfl <;> rfl
+/-! a forest with a subgroup field, a nested class, the chosen subgroup's wrapper and a parser-level default `ex` -/
+
+private def sEx : Str := ['e', 'x']
+private def sCfgM : Str := ['c', 'f', 'g', '.', 'm']
+private def sCfgMP : Str := ['c', 'f', 'g', '.', 'm', '.', 'p']
+private def keyA : PVal := .atom ['a']
+
+private def wTopS : DcW PVal :=
+  { dest := sCfg, dests := [sCfg], level := 0, hasParent := false, suppress := false, optNone := false, ctor := ['T'],
+    fields := [{ name := ['x'], dest := sCfgX, dests := [sCfgX], isSubgroup := false, init := true, dflt := one, conv := .id },
+               { name := ['m'], dest := sCfgM, dests := [sCfgM], isSubgroup := true, init := true, dflt := keyA, conv := .id }] }
+private def wSub : DcW PVal :=
+  { dest := sCfgM, dests := [sCfgM], level := 1, hasParent := true, suppress := false, optNone := false, ctor := ['S'],
+    fields := [{ name := ['p'], dest := sCfgMP, dests := [sCfgMP], isSubgroup := false, init := true, dflt := one, conv := .id }] }
+private def psSub : PState PVal :=
+  { wrappers := [wTopS, wIn, wSub], cargs0 := [], defaultsKeys := [sEx], alwaysMerge := false }
+
+/-- raw namespace of `--foo 1 --x 2` with `set_defaults(ex=1)`: the subgroup choice first (written by the pre-parser) -/
+private def rawSub : Dict PVal :=
+  [(sCfgM, keyA), (sFoo, one), (sEx, one), (sCfgX, two), (sCfgInY, two), (sCfgMP, one)]
+
+private def nsSub : Nsp PVal :=
+  { attrs := [(sFoo, one), (sEx, one),
+              (sCfg, .inst ['T'] [(['x'], two), (['i', 'n'], .inst ['I'] [(['y'], two)]), (['m'], .inst ['S'] [(['p'], one)])])],
+    subgroups := some [(sCfgM, keyA)] }
+
+private def uaSub : Table := [{ dest := sFoo }]
+private def saSub : Table := [{ dest := sCfgM }, { dest := sCfgX }, { dest := sCfgInY }, { dest := sCfgMP }]
+
+example : postprocess palg psSub rawSub = .ok nsSub := by rfl
+
+theorem constructTotal_palg : ConstructTotal palg := fun _ _ => by simp [palg]
+
+/-- the hypotheses of `c09_accept`, `c09_frame` and `c09_frame_total` hold for this input: subgroup field, nested
+    class, non-empty parser-level defaults disjoint from simple-parsing's destinations -/
+example : WellFormed psSub rawSub := by decide
+example : FrameHyps psSub uaSub saSub rawSub := by decide
+example : NoSuppress psSub := by decide
+example : ParentsAbove psSub.wrappers := by
+  intro w hw hp
+  simp only [psSub, List.mem_cons, List.not_mem_nil, or_false] at hw
+  rcases hw with rfl | rfl | rfl
+  · exact absurd hp (by decide)
+  · exact ⟨wTopS, by simp [psSub], by decide, by decide⟩
+  · exact ⟨wTopS, by simp [psSub], by decide, by decide⟩
+example : spParse palg (fun _ => none) (fun _ _ => .ok rawSub [['z']]) psSub uaSub saSub [] = .ok nsSub [['z']] := by rfl
+example : (nsSub.subgroups.isSome ↔ subgroupDests psSub.wrappers ≠ []) := by decide
 
 /-- a user attribute already sitting at the `add_arguments` destination is refused (parsing.py:898) … -/
 theorem c09_collision_witness :
@@ -477,8 +612,9 @@ def NoDottedFull : Prop :=
     (∀ d ∈ rootDests ps.wrappers, dotted d = false) → ∀ k ∈ n.keys, dotted k = false
 
 /-- the code's `if not field.field.init: continue` (parsing.py:964) leaves the dotted key of such a field in the
-    namespace; no real `FieldWrapper` is ever created for an `init=False` field (dataclass_wrapper.py:77), which the
-    harness checks on every real parser — so the exclusion `AllInit` of `c09_no_dotted` (the `_partial` form of this
+    namespace; no real `FieldWrapper` is ever created for an `init=False` field (dataclass_wrapper.py:77): the generated
+    forests contain `field(init=False)` leaves and the harness checks on every real parser that no wrapper exists
+    for them — so the exclusion `AllInit` of `c09_no_dotted` (the `_partial` form of this
     statement) is about the model's input space only -/
 theorem c09_init_false_leaks_witness : ¬ NoDottedFull := by
   intro h
@@ -487,6 +623,66 @@ theorem c09_init_false_leaks_witness : ¬ NoDottedFull := by
             subgroups := none } := by rfl
   have := h _ _ _ hp (by decide) (by decide) sCfgX (by decide)
   exact absurd this (by decide)
+
+/-- open finding C09-intermixed (`parse_intermixed_args` calls the overridden `parse_known_args` twice, parsing.py:362
+    runs both times): the post-processing is not idempotent — applied to its own result it finds the dataclass
+    destination already set and raises.  The theorems of this file are about the two APIs `parse_known_args` /
+    `parse_args` (one post-processing per parse). -/
+theorem c09_second_postprocess_witness :
+    postprocess palg (psEx true []) rawEx = .ok nsEx ∧
+    postprocess palg (psEx true []) nsEx.attrs = .raise .runtimeError := ⟨by rfl, by rfl⟩
+
+/-- "one attribute per add_arguments destination", without the exclusion `NoSuppress` -/
+def RootsFull : Prop :=
+  ∀ (ps : PState PVal) (raw : Dict PVal) (n : Nsp PVal), postprocess palg ps raw = .ok n →
+    ∀ d ∈ rootDests ps.wrappers, d ∈ dkeys n.attrs
+
+private def psSup : PState PVal :=
+  { wrappers := [{ wTop true with suppress := true }], cargs0 := [], defaultsKeys := [], alwaysMerge := false }
+
+/-- `add_arguments(T, "cfg", default=argparse.SUPPRESS)` and nothing given: the namespace has NO `cfg` attribute
+    (parsing.py:867-871); with `--x 2` it is the plain dict `{'x': 2}` (:861).  `c09_roots_present` is the `_partial`
+    form under the named exclusion `NoSuppress`. -/
+theorem c09_suppress_witness : ¬ RootsFull := by
+  intro h
+  have hp : postprocess palg psSup [(sFoo, one)] = .ok { attrs := [(sFoo, one)], subgroups := none } := by rfl
+  exact absurd (h _ _ _ hp sCfg (by decide)) (by decide)
+
+example : postprocess palg psSup [(sFoo, one), (sCfgX, two)] =
+    .ok { attrs := [(sFoo, one), (sCfg, .dict [(['x'], two)])], subgroups := none } := by rfl
+
+/-- `parser.set_defaults(**kw)` behaves like argparse's: every keyword reaches `_defaults`, no file is read -/
+def SetDefaultsFull : Prop :=
+  ∀ (kw : List Str) (cpTruthy : Bool), setDefaultsPassed [] kw = kw ∧ setDefaultsReadsFile kw cpTruthy = false
+
+/-- open finding C09-set-defaults-config-path: a user destination called `config_path` is swallowed by the method's
+    own first parameter (parsing.py:385) and treated as a file to read -/
+theorem c09_set_defaults_witness : ¬ SetDefaultsFull := by
+  intro h
+  have := (h ["config_path".toList] true).2
+  simp [setDefaultsReadsFile] at this
+
+/-- `_partial`: keywords other than `config_path` that do not name a registered dataclass destination all reach
+    argparse's `_defaults`, and no file is read -/
+theorem c09_set_defaults_partial (wd kw : List Str) (t : Bool) (h1 : "config_path".toList ∉ kw) (h2 : ∀ k ∈ kw, k ∉ wd) :
+    setDefaultsPassed wd kw = kw ∧ setDefaultsReadsFile kw t = false := by
+  have hr : setDefaultsReadsFile kw t = false := by
+    unfold setDefaultsReadsFile
+    cases hc : kw.contains "config_path".toList with
+    | false => rfl
+    | true => exact absurd (List.contains_iff_mem.mp hc) h1
+  refine ⟨?_, hr⟩
+  unfold setDefaultsPassed
+  apply List.filter_eq_self.mpr
+  intro k hk
+  have hne : (k == "config_path".toList) = false := beq_eq_false_iff_ne.mpr (fun e => h1 (e ▸ hk))
+  have hw : wd.contains k = false := by
+    cases hc : wd.contains k with
+    | false => rfl
+    | true => exact absurd (List.contains_iff_mem.mp hc) (h2 k hk)
+  rw [hne, hw]; rfl
+
+example : "config_path".toList ∉ [sFoo, sEx] ∧ ∀ k ∈ [sFoo, sEx], k ∉ [sCfg] := by decide
 
 end Examples
 
